@@ -8,9 +8,17 @@ import (
 
 // Scan breaks a string into a sequence of Tokens.
 func Scan(data string, loc SourceLoc, delims []string) (tokens []Token) {
-	// Apply defaults
+	// Apply defaults: to all four when the list is absent, else to each empty element
+	defaults := []string{"{{", "}}", "{%", "%}"}
 	if len(delims) != 4 {
-		delims = []string{"{{", "}}", "{%", "%}"}
+		delims = defaults
+	} else {
+		delims = append([]string{}, delims...)
+		for i, d := range delims {
+			if d == "" {
+				delims[i] = defaults[i]
+			}
+		}
 	}
 	tokenMatcher := formTokenMatcher(delims)
 
